@@ -12,7 +12,18 @@
 //!                                         SQLite wallet (batched decryption on the rayon pool,
 //!                                         RAYON_NUM_THREADS is set by the caller), comparing the rows
 //!                                         of the wallet with the prediction; a rejected range must
-//!                                         leave the dump of every table unchanged.
+//!                                         leave the dump of every table unchanged;
+//!   sched  <cases.ndjson> <out.json>     the schedule clause: every case is a small history (setup
+//!                                         ranges, then the range under test) whose batch tasks
+//!                                         BatchRunner.tla / Emit_BatchRunner.tla partition and whose
+//!                                         completion orders TLC enumerated. The range under test is
+//!                                         scanned (i) block by block through `scan_block` (inline
+//!                                         decryption), (ii) through `scan_cached_blocks` on a fresh
+//!                                         wallet with the tasks on the rayon pool (reference), and
+//!                                         (iii) once per completion order on a fresh wallet each,
+//!                                         with the verification hook `scan::verif::capture` running
+//!                                         the queued tasks in exactly that order; every result must
+//!                                         equal the prediction (and the reference rows).
 //!
 //! Expected values never come from the code under test: positions, accounts, scopes, change flags,
 //! retentions, sizes and error classes are TLC's evaluation of the definition; nullifiers are
@@ -1271,14 +1282,476 @@ fn mode_wallet(scen_path: &str, out_path: &str) {
     println!("{}", json!({"scenarios": done, "mismatches": out["mismatches"].as_array().unwrap().len(), "stats": out["stats"]}));
 }
 
+// ------------------------------------------------------------------------------------------------
+// mode "sched": scan_cached_blocks with the batch tasks run in a chosen completion order
+
+/// Every table of the wallet database except the named ones, as text.
+fn dump_except(w: &W, skip: &[&str]) -> String {
+    let full = dump_all(w);
+    let mut out = String::new();
+    let mut keep = true;
+    for line in full.lines() {
+        if let Some(t) = line.strip_prefix("== ") {
+            keep = !skip.contains(&t);
+        }
+        if keep {
+            out.push_str(line);
+            out.push('\n');
+        }
+    }
+    out
+}
+
+/// The permutation a schedule description stands for when `n` tasks are queued.
+fn schedule_perm(order: &Value, n: usize, seed: u64) -> Vec<usize> {
+    match order["k"].as_str().unwrap_or("id") {
+        "perm" => order["p"].as_array().unwrap().iter().map(|v| v.as_u64().unwrap() as usize).collect(),
+        "rev" => (0..n).rev().collect(),
+        "rot" => {
+            let by = order["by"].as_u64().unwrap_or(1) as usize;
+            (0..n).map(|i| (i + by) % n.max(1)).collect()
+        }
+        "rand" => {
+            let mut r = ChaChaRng::seed_from_u64(seed ^ order["s"].as_u64().unwrap_or(0).wrapping_mul(0x9e3779b97f4a7c15) ^ ((n as u64) << 48));
+            let mut v: Vec<usize> = (0..n).collect();
+            for i in (1..n).rev() {
+                let j = r.gen_range(0..=i);
+                v.swap(i, j);
+            }
+            v
+        }
+        _ => (0..n).collect(),
+    }
+}
+
+type NoteRows = BTreeMap<(String, usize, u64), Value>;
+type BlockRows = BTreeMap<u32, Value>;
+
+/// Folds the prediction for an accepted range into the expected wallet content (as `mode_wallet` does).
+fn fold_expected(exp: &Value, mats: &[MatBlock], exp_notes: &mut NoteRows, note_key: &mut HashMap<u64, (String, usize, u64)>, exp_blocks: &mut BlockRows) {
+    for (k, r) in exp["res"].as_array().unwrap().iter().enumerate() {
+        let mb = &mats[k];
+        for rv in r["recv"].as_array().unwrap() {
+            let (t, p, i) = (rv["t"].as_u64().unwrap() as usize, pool_idx(rv["p"].as_str().unwrap()), rv["i"].as_u64().unwrap());
+            let mt = &mb.txs[t - 1];
+            let key = (hex::encode(mt.txid), p, i);
+            exp_notes.insert(
+                key.clone(),
+                json!({"a": rv["a"], "v": rv["v"], "pos": rv["pos"], "sc": rv["sc"], "chg": rv["chg"],
+                       "nf": mt.outs[p][i as usize].nf.map(hex::encode), "mined": mb.height, "txi": mt.index, "sp": []}),
+            );
+            if rv["n"].as_u64().unwrap_or(0) > 0 {
+                note_key.insert(rv["n"].as_u64().unwrap(), key);
+            }
+        }
+        for s in r["spent"].as_array().unwrap() {
+            let t = s["t"].as_u64().unwrap() as usize;
+            let spender = hex::encode(mb.txs[t - 1].txid);
+            if let Some(key) = note_key.get(&s["n"].as_u64().unwrap()) {
+                let e = exp_notes.get_mut(key).unwrap();
+                let mut v: Vec<String> = e["sp"].as_array().unwrap().iter().map(|x| x.as_str().unwrap().to_string()).collect();
+                v.push(spender);
+                v.sort();
+                e["sp"] = json!(v);
+            }
+        }
+        let counts: Vec<usize> = (0..3).map(|p| mb.txs.iter().map(|t| t.outs[p].len()).sum()).collect();
+        exp_blocks.insert(mb.height, json!({"hash": hex::encode(mb.hash), "S": r["final"]["S"], "O": r["final"]["O"], "I": r["final"]["I"],
+            "nS": counts[0], "nO": counts[1], "nI": counts[2]}));
+    }
+}
+
+/// Differences between the wallet's rows and the expected ones, in words.
+fn diff_rows(notes: &NoteRows, blks: &BlockRows, exp_notes: &NoteRows, exp_blocks: &BlockRows, base: u32, against: &str, why: &mut Vec<String>) {
+    if notes != exp_notes {
+        let mut shown = 0;
+        for (k, e) in exp_notes {
+            match notes.get(k) {
+                None => {
+                    why.push(format!("note (tx {}.., pool {}, #{}) {against} {} is missing from the wallet", &k.0[..8], POOLS[k.1], k.2, e));
+                    shown += 1;
+                }
+                Some(g) if g != e => {
+                    why.push(format!("note (tx {}.., pool {}, #{}): {against} {} got {}", &k.0[..8], POOLS[k.1], k.2, e, g));
+                    shown += 1;
+                }
+                _ => {}
+            }
+            if shown >= 4 {
+                break;
+            }
+        }
+        for (k, g) in notes {
+            if !exp_notes.contains_key(k) && shown < 6 {
+                why.push(format!("the wallet holds a note (tx {}.., pool {}, #{}) {} that is not {against}", &k.0[..8], POOLS[k.1], k.2, g));
+                shown += 1;
+            }
+        }
+    }
+    if blks != exp_blocks {
+        for (h, e) in exp_blocks {
+            if blks.get(h) != Some(e) {
+                why.push(format!("block row {}: {against} {} got {:?}", h - base, e, blks.get(h)));
+                break;
+            }
+        }
+        if blks.len() != exp_blocks.len() {
+            why.push(format!("{} block rows, {against} {}", blks.len(), exp_blocks.len()));
+        }
+    }
+}
+
+fn keys_equal(a: &[Keys], b: &[Keys]) -> bool {
+    a.len() == b.len() && a.iter().zip(b.iter()).all(|(x, y)| x.sapling.to_bytes() == y.sapling.to_bytes() && x.orchard.to_bytes() == y.orchard.to_bytes())
+}
+
+/// The outcome of scanning a case's history on one fresh wallet.
+struct SchedRun {
+    /// "ok" | "err:<class>" | "panic"
+    verdict: String,
+    text: String,
+    notes: NoteRows,
+    blocks: BlockRows,
+    dump: String,
+    /// sizes of the task groups the hook drained (empty for the reference run)
+    drained: Vec<usize>,
+    /// the permutations the scheduler answered with
+    applied: Vec<Vec<usize>>,
+    /// harness-level trouble before the range under test (setup range not accepted, ...)
+    setup_trouble: Vec<String>,
+    /// the database dump changed although the range under test was not accepted
+    changed_on_reject: bool,
+}
+
+type Current = Arc<Mutex<Option<(std::time::Instant, Value)>>>;
+
+#[allow(clippy::too_many_arguments)]
+fn sched_run(chain: &Chain, keys0: &[Keys], ranges: &[Value], froms: &[u32], order: Option<&Value>, seed: u64, current: &Current, tag: &Value) -> SchedRun {
+    use zcash_client_backend::scan::verif;
+    let (mut w, keys) = W::new(true);
+    assert!(keys_equal(&keys, keys0), "harness: a fresh wallet has other keys than the first one");
+    assert_eq!(w.base, chain.base, "harness: a fresh wallet has another base height");
+    let acct_ids: Vec<i64> = w.acct_rows.clone();
+    let mut setup_trouble = vec![];
+    let last = ranges.len() - 1;
+    // the watchdog covers the setup scans as well (a scan that never returns is an outcome, wherever it happens)
+    *current.lock().unwrap() = Some((std::time::Instant::now(), tag.clone()));
+    for (ri, rg) in ranges.iter().enumerate().take(last) {
+        let n = rg["blocks"].as_array().unwrap().len();
+        match w.scan(chain, froms[ri], n) {
+            Ok(Ok(())) => {}
+            other => setup_trouble.push(format!("setup range {} was not accepted: {:?}", ri + 1, other)),
+        }
+    }
+    let pre = dump_all(&w);
+    let n = ranges[last]["blocks"].as_array().unwrap().len();
+    let applied: Arc<Mutex<Vec<Vec<usize>>>> = Arc::new(Mutex::new(vec![]));
+    if let Some(o) = order {
+        let o = o.clone();
+        let applied = applied.clone();
+        verif::capture(Box::new(move |k| {
+            let p = schedule_perm(&o, k, seed);
+            applied.lock().unwrap().push(p.clone());
+            p
+        }));
+    }
+    let res = w.scan(chain, froms[last], n);
+    *current.lock().unwrap() = None;
+    let drained = if order.is_some() { guarded(verif::release).unwrap_or_else(|_| vec![usize::MAX]) } else { vec![] };
+    let (verdict, text) = match &res {
+        Ok(Ok(())) => ("ok".to_string(), String::new()),
+        Ok(Err(e)) => (format!("err:{}", wallet_err_class(e)), e.chars().take(200).collect()),
+        Err(p) => ("panic".to_string(), p.chars().take(200).collect()),
+    };
+    let changed_on_reject = verdict != "ok" && dump_all(&w) != pre;
+    let (notes, blocks) = wallet_rows(&w, &acct_ids);
+    let dump = dump_except(&w, &["accounts"]);
+    let applied = applied.lock().unwrap().clone();
+    SchedRun { verdict, text, notes, blocks, dump, drained, applied, setup_trouble, changed_on_reject }
+}
+
+fn mode_sched(cases_path: &str, out_path: &str) {
+    let seed = seed_from_env();
+    let cases = read_ndjson(cases_path);
+    let hang_secs: u64 = std::env::var("C05_HANG_SECS").ok().and_then(|s| s.parse().ok()).unwrap_or(90);
+    let mut mismatches: Vec<Value> = vec![];
+    let mut stats: BTreeMap<String, u64> = BTreeMap::new();
+    let bump = |k: &str, by: u64, stats: &mut BTreeMap<String, u64>| *stats.entry(k.to_string()).or_insert(0) += by;
+    let mut per_case: Vec<Value> = vec![];
+
+    // watchdog: a scan that does not return is an outcome ("hang")
+    let current: Current = Arc::new(Mutex::new(None));
+    let partial: Arc<Mutex<(Vec<Value>, Vec<Value>)>> = Arc::new(Mutex::new((vec![], vec![])));
+    {
+        let current = current.clone();
+        let partial = partial.clone();
+        let out_path = out_path.to_string();
+        std::thread::spawn(move || loop {
+            std::thread::sleep(std::time::Duration::from_millis(500));
+            let g = current.lock().unwrap();
+            if let Some((t0, tag)) = &*g {
+                if t0.elapsed().as_secs() >= hang_secs {
+                    let (mut mm, pc) = partial.lock().unwrap().clone();
+                    mm.push(json!({"case": tag["case"], "kind": "sched", "order": tag["order"], "input": tag["input"], "got": {"hang": true},
+                        "why": [format!("scan_cached_blocks did not return within {hang_secs} s ({}): the batched decryption never delivered a transaction's results", tag["what"])]}));
+                    let out = json!({"mode": "sched", "cases": -1, "mismatches": mm, "stats": {"hang": 1}, "per_case": pc});
+                    std::fs::write(&out_path, serde_json::to_string(&out).unwrap()).expect("write out");
+                    println!("{}", json!({"hang": true}));
+                    std::process::exit(0);
+                }
+            }
+        });
+    }
+
+    let (w0, keys0) = W::new(true);
+    let net = w0.net;
+    let base = w0.base;
+    // the accounts' viewing keys as the wallet reports them, numbered as the specification numbers accounts
+    let ufvks: Vec<(u32, zcash_keys::keys::UnifiedFullViewingKey)> = {
+        use zcash_client_backend::data_api::WalletRead;
+        let m = w0.st.wallet().get_unified_full_viewing_keys().expect("ufvks");
+        w0.acct_ids.iter().enumerate().map(|(i, id)| (i as u32 + 1, m.get(id).expect("ufvk of account").clone())).collect()
+    };
+    drop(w0);
+    let inline_keys: SKeys = ScanningKeys::from_account_ufvks(ufvks.clone());
+
+    let mut done = 0u64;
+    for case in &cases {
+        let cid = case["id"].clone();
+        let ranges: Vec<Value> = case["ranges"].as_array().unwrap().clone();
+        let last = ranges.len() - 1;
+        // the random choices of a case depend on the seed and the case only (replay of the case alone repeats them)
+        let mut hsh: u64 = 0xcbf29ce484222325;
+        for b in format!("{}{}", case["conf"], case["id"]).bytes() {
+            hsh = (hsh ^ b as u64).wrapping_mul(0x100000001b3);
+        }
+        let cseed = seed.wrapping_mul(0x9e3779b97f4a7c15) ^ hsh;
+        let mut mat = Mat::new(keys0.clone(), cseed);
+        let mut chain = Chain::new(base, keys0.clone(), &mut ChaChaRng::seed_from_u64(cseed ^ 0x5eed), true);
+
+        // materialise the whole history once; every wallet of this case scans the same blocks
+        let mut hash_tags: HashMap<u64, [u8; 32]> = HashMap::new();
+        hash_tags.insert(0, [0u8; 32]);
+        let mut all_mats: Vec<Vec<MatBlock>> = vec![];
+        let mut froms: Vec<u32> = vec![];
+        for rg in &ranges {
+            let exp = &rg["exp"];
+            let blocks = rg["blocks"].as_array().unwrap();
+            let from = base + blocks[0]["hreal"].as_u64().unwrap() as u32;
+            froms.push(from);
+            let (mut sap, mut orch, mut iron, mut sizes) = match chain.blocks.get(&(from - 1)) {
+                Some(b) => (b.sap.clone(), b.orch.clone(), b.iron.clone(), b.sizes),
+                None => (SapFrontier::empty(), OrchFrontier::empty(), OrchFrontier::empty(), [0u32; 3]),
+            };
+            let mut mats = vec![];
+            for (k, ab) in blocks.iter().enumerate() {
+                let height = base + ab["hreal"].as_u64().unwrap() as u32;
+                assert_eq!(height, from + k as u32, "harness: range heights");
+                let positions = exp["res"].get(k).map(positions_of).unwrap_or_default();
+                let mut hash = [0u8; 32];
+                mat.rng.fill_bytes(&mut hash);
+                hash_tags.insert(ab["hash"].as_u64().unwrap(), hash);
+                let prev = match hash_tags.get(&ab["prev"].as_u64().unwrap()) {
+                    Some(h) => *h,
+                    None => flip_bit(chain.hash_at(height - 1), &mut mat.rng),
+                };
+                let cb_height = base as u64 + ab["h"].as_u64().unwrap();
+                let mb = mat.block(&net, ab, height, cb_height, hash, prev, &positions);
+                for t in &mb.txs {
+                    for o in &t.outs[0] {
+                        if let Some(n) = sap_node(&o.cm) {
+                            sap.append(n);
+                        }
+                        sizes[0] += 1;
+                    }
+                    for o in &t.outs[1] {
+                        if let Some(n) = orch_node(&o.cm) {
+                            orch.append(n);
+                        }
+                        sizes[1] += 1;
+                    }
+                    for o in &t.outs[2] {
+                        if let Some(n) = orch_node(&o.cm) {
+                            iron.append(n);
+                        }
+                        sizes[2] += 1;
+                    }
+                }
+                chain.blocks.insert(height, Blk { height, uid: 0, hash, cb: mb.cb.clone(), txs: vec![], sap: sap.clone(), orch: orch.clone(), iron: iron.clone(), sizes });
+                mats.push(mb);
+            }
+            all_mats.push(mats);
+        }
+        // expected wallet content: after the setup ranges, and after the range under test
+        let mut exp_notes: NoteRows = BTreeMap::new();
+        let mut note_key = HashMap::new();
+        let mut exp_blocks: BlockRows = BTreeMap::new();
+        for (ri, rg) in ranges.iter().enumerate() {
+            assert!(ri == last || rg["exp"]["ok"].as_bool() == Some(true), "harness: a setup range must be an accepted one");
+            if rg["exp"]["ok"].as_bool() == Some(true) {
+                fold_expected(&rg["exp"], &all_mats[ri], &mut exp_notes, &mut note_key, &mut exp_blocks);
+            }
+        }
+        let exp_ok = ranges[last]["exp"]["ok"].as_bool() == Some(true);
+
+        let mut case_why: Vec<(Value, Vec<String>, Value)> = vec![];
+
+        // (i) inline: block by block through scan_block, no batch runner at all
+        {
+            let mut why = vec![];
+            let mut nullifiers: Nullifiers<u32> = Nullifiers::empty();
+            let mut prior: Option<BlockMetadata> = None;
+            'outer: for (ri, rg) in ranges.iter().enumerate() {
+                for (k, mb) in all_mats[ri].iter().enumerate() {
+                    let e = &rg["exp"]["res"][k];
+                    if e.is_null() {
+                        break 'outer;
+                    }
+                    match guarded(|| scan_block(&net, mb.cb.clone(), &inline_keys, &nullifiers, prior.as_ref())) {
+                        Err(p) => {
+                            why.push(format!("scan_block (inline) panicked on block {} of range {}: {}", k + 1, ri + 1, p.chars().take(160).collect::<String>()));
+                            break 'outer;
+                        }
+                        Ok(Err(err)) => {
+                            if e["ok"].as_bool() == Some(true) {
+                                why.push(format!("scan_block (inline) rejected block {} of range {}: {err:?}", k + 1, ri + 1));
+                            } else {
+                                diff_error(e, err_class(&err), &mut why);
+                            }
+                            break 'outer;
+                        }
+                        Ok(Ok(sb)) => {
+                            if e["ok"].as_bool() != Some(true) {
+                                why.push(format!("scan_block (inline) accepted block {} of range {} with defects {}", k + 1, ri + 1, e["all"]));
+                                break 'outer;
+                            }
+                            let mut notes = vec![];
+                            let got = project(&sb, mb, &mut notes);
+                            let mut w1 = vec![];
+                            diff_block(e, &got, mb, &mut w1);
+                            w1.extend(notes);
+                            why.extend(w1.into_iter().take(6).map(|s| format!("scan_block (inline), block {} of range {}: {s}", k + 1, ri + 1)));
+                            nullifiers.update_with(&sb);
+                            prior = Some(sb.to_block_metadata());
+                            bump("inline_blocks", 1, &mut stats);
+                        }
+                    }
+                }
+            }
+            if !why.is_empty() {
+                case_why.push((json!("inline"), why, json!({})));
+            }
+        }
+
+        // (ii) the reference: the tasks on the rayon pool (the caller sets RAYON_NUM_THREADS)
+        let judge = |run: &SchedRun, reference: Option<&SchedRun>, why: &mut Vec<String>| {
+            why.extend(run.setup_trouble.iter().cloned());
+            match (run.verdict.as_str(), exp_ok) {
+                ("ok", true) => {
+                    diff_rows(&run.notes, &run.blocks, &exp_notes, &exp_blocks, base, "expected", why);
+                }
+                ("ok", false) => {
+                    let e = &ranges[last]["exp"];
+                    why.push(format!("a range whose block {} has defects {} was accepted", e["at"], e["res"][e["at"].as_u64().unwrap() as usize - 1]["all"]));
+                }
+                ("panic", _) => why.push(format!("scan_cached_blocks panicked: {}", run.text)),
+                (v, true) => why.push(format!("a range of well-formed, connected blocks was rejected ({v}): {}", run.text)),
+                (v, false) => {
+                    let e = &ranges[last]["exp"];
+                    let bad = &e["res"][e["at"].as_u64().unwrap() as usize - 1];
+                    diff_error(bad, v.trim_start_matches("err:"), why);
+                }
+            }
+            if run.changed_on_reject {
+                why.push("the rejected range changed the wallet database".into());
+            }
+            if let Some(r) = reference {
+                if r.verdict != run.verdict && !(r.verdict.starts_with("err:") && run.verdict.starts_with("err:")) {
+                    why.push(format!("verdict {} differs from the reference run's {}", run.verdict, r.verdict));
+                }
+                if run.notes != r.notes || run.blocks != r.blocks {
+                    diff_rows(&run.notes, &run.blocks, &r.notes, &r.blocks, base, "the reference run has", why);
+                }
+            }
+        };
+        let tag = json!({"case": cid, "order": "reference", "input": case, "what": "tasks on the rayon pool"});
+        let reference = sched_run(&chain, &keys0, &ranges, &froms, None, cseed, &current, &tag);
+        {
+            let mut why = vec![];
+            judge(&reference, None, &mut why);
+            if !why.is_empty() {
+                case_why.push((json!("reference"), why, json!({"verdict": reference.verdict, "text": reference.text})));
+            }
+        }
+        bump("reference_runs", 1, &mut stats);
+
+        // (iii) every completion order, the queued tasks run by the hook in exactly that order
+        let orders = case["orders"].as_array().cloned().unwrap_or_default();
+        let mut drained_counts: Vec<Value> = vec![];
+        let mut distinct_applied: std::collections::BTreeSet<Vec<usize>> = Default::default();
+        let mut dump_differs = 0u64;
+        for o in &orders {
+            let tag = json!({"case": cid, "order": o, "input": case, "what": format!("tasks captured, order {o}")});
+            let run = sched_run(&chain, &keys0, &ranges, &froms, Some(o), cseed, &current, &tag);
+            let mut why = vec![];
+            judge(&run, Some(&reference), &mut why);
+            let total: usize = run.drained.iter().filter(|x| **x != usize::MAX).sum();
+            drained_counts.push(json!(run.drained));
+            for p in &run.applied {
+                distinct_applied.insert(p.clone());
+            }
+            bump("captured_runs", 1, &mut stats);
+            bump("tasks_drained", total as u64, &mut stats);
+            if total >= 2 {
+                bump("captured_runs_with_2plus_tasks", 1, &mut stats);
+            }
+            if run.applied.iter().any(|p| p.iter().enumerate().any(|(i, x)| i != *x)) {
+                bump("non_identity_orders_applied", 1, &mut stats);
+            }
+            if run.dump != reference.dump {
+                dump_differs += 1;
+            }
+            if !why.is_empty() {
+                case_why.push((o.clone(), why, json!({"verdict": run.verdict, "text": run.text, "drained": run.drained, "applied": run.applied})));
+                if case_why.len() >= 4 {
+                    break;
+                }
+            }
+        }
+        bump("dump_differs_from_reference", dump_differs, &mut stats);
+        let pc = json!({"id": cid, "expected_tasks": case["conf"]["n"], "drained": drained_counts, "orders": orders.len(),
+            "distinct_orders_applied": distinct_applied.len(), "dump_differs": dump_differs, "mismatch": !case_why.is_empty()});
+        per_case.push(pc.clone());
+        partial.lock().unwrap().1.push(pc);
+        done += 1;
+        if let Some((o, why, got)) = case_why.first() {
+            let mut all: Vec<String> = why.clone();
+            for (o2, w2, _) in case_why.iter().skip(1) {
+                all.push(format!("[also under {o2}] {}", w2.first().cloned().unwrap_or_default()));
+            }
+            let m = json!({"case": cid, "kind": "sched", "order": o, "input": case, "got": got, "why": all});
+            partial.lock().unwrap().0.push(m.clone());
+            if mismatches.len() < 6 {
+                mismatches.push(m);
+            } else {
+                bump("more_mismatches", 1, &mut stats);
+            }
+        }
+    }
+    let out = json!({"mode": "sched", "cases": done, "mismatches": mismatches, "stats": stats, "per_case": per_case});
+    std::fs::write(out_path, serde_json::to_string(&out).unwrap()).expect("write out");
+    println!("{}", json!({"cases": done, "mismatches": out["mismatches"].as_array().unwrap().len(), "stats": out["stats"]}));
+}
+
 fn main() {
     quiet_panics();
     let args: Vec<String> = std::env::args().collect();
     match args.get(1).map(|s| s.as_str()) {
         Some("block") => mode_block(&args[2], &args[3]),
         Some("wallet") => mode_wallet(&args[2], &args[3]),
+        Some("sched") => mode_sched(&args[2], &args[3]),
         _ => {
-            eprintln!("usage: c05_replay block|wallet <in.ndjson> <out.json>");
+            eprintln!("usage: c05_replay block|wallet|sched <in.ndjson> <out.json>");
             std::process::exit(2);
         }
     }
